@@ -185,13 +185,45 @@ class Function:
         self._loops = None
         self._users = None
 
+    def _null_object_edge(self, t):
+        """for `br (param == NULL)` / `br (param != NULL)` on a pointer-to-struct parameter: the successor taken when the parameter is NULL.
+        The properties speak of calls on valid objects (the unhardened code dereferences these parameters unconditionally); a defensive
+        `if (reader == NULL) return 0;` opens no path the properties quantify over, so the analysis assumes object parameters non-NULL
+        (named assumption A-nonnull-objects) and does not follow that edge.  Only the pure comparison is pruned: `p == NULL || other` keeps
+        its `other` branch."""
+        if t.op != "br" or not t.ops or len(t.succs or []) != 2 or t.succs[0] == t.succs[1]:
+            return None
+        c = self.vals.get(t.ops[0][1]) if t.ops[0][0] == "v" else None
+        if c is None or getattr(c, "is_param", False) or c.op != "icmp" or c.pred not in ("eq", "ne"):
+            return None
+        a, b = c.ops
+        if b[0] != "null":
+            a, b = b, a
+        if b[0] != "null" or a[0] != "v":
+            return None
+        pd = self.vals.get(a[1])
+        if pd is None or not getattr(pd, "is_param", False):
+            return None
+        ty = pd.ty
+        if not (ty.startswith("%struct.") and ty.endswith("*") and not ty.endswith("**")):
+            return None
+        return t.succs[0] if c.pred == "eq" else t.succs[1]
+
     def _cfg(self):
+        self.pruned_null_edges = []
         for b in self.blocks:
             t = b.insts[-1] if b.insts else None
             s = []
             if t is not None:
                 if t.op == "br":
                     s = list(t.succs)
+                    dead = self._null_object_edge(t)
+                    if dead is not None:
+                        s = [x for x in s if x != dead]
+                        self.pruned_null_edges.append((b.id, dead))
+                        t.d["succs"] = list(s)
+                        t.ops = []
+                        t.d["ops"] = []
                 elif t.op == "switch":
                     s = [t.d["default"]] + [c[1] for c in t.d["cases"]]
             seen = []
@@ -220,7 +252,7 @@ class Function:
             if b.id in live:
                 for i in b.insts:
                     if i.op == "phi":
-                        i.d["incoming"] = [(v, pb) for v, pb in i.incoming if pb in live]
+                        i.d["incoming"] = [(v, pb) for v, pb in i.incoming if pb in live and b.id in self.blocks[pb].succs]
                         if i.ops:
                             i.ops = [v for v, _ in i.d["incoming"]]
             else:
